@@ -30,6 +30,7 @@ Long1 == {
   Cfg(<<"module_prev", "variance", "volatility">>, "relu", << <<1, -1, 2>> >>, <<-1>>, <<2>>, TRUE),
   Cfg(<<"log_moneyness", "underlier_log_spot", "log_spot", "spot">>, "linear", << <<1, 2, -1, 1>> >>, <<0>>, <<0>>, TRUE)
 }
+AllH1 == Singles1 \cup Combos1
 \* H = 2 -------------------------------------------------------------------
 Combos2 == {
   Cfg(<<"moneyness", "variance">>, "linear", << <<1, 2>>, <<-1, 1>> >>, <<0, 1>>, <<1, 2>>, TRUE),
